@@ -215,6 +215,10 @@ def reaching_defs(body, local, loc):
 # ---------------------------------------------------------------------------------------------
 # expression trees
 # ---------------------------------------------------------------------------------------------
+# discriminant value of every enum variant seen under construction (variant path -> value)
+VARIANT_DVAL = {}
+
+
 class ExprBuilder:
     def __init__(self, body, facts=None, inline=True, inline_depth=3):
         self.body = body
@@ -285,7 +289,17 @@ class ExprBuilder:
         if "idx" in pe:
             return ("index", e, self.local(pe["idx"], loc, depth))
         if "variant" in pe:
-            return ("variant", e, pe.get("vname"))
+            vn = pe.get("vname")
+            if e[0] == "phi" and vn:
+                # the value is one of several locally built variants (`Ok(x)` on one path, `Err(y)` on another): the payload
+                # read in the arm of variant `vn` is that of the one alternative built as `vn`
+                is_var = lambda a: isinstance(a, tuple) and a and a[0] == "agg" and isinstance(a[1], tuple) and a[1][0] == "adt"
+                cands = [a for a in e[1] if is_var(a) and a[1][1].rsplit("::", 1)[-1] == vn]
+                if len(cands) == 1 and all(is_var(a) for a in e[1]):
+                    e = cands[0]
+            if e[0] == "agg" and isinstance(e[1], tuple) and e[1][0] == "adt" and vn and e[1][1].rsplit("::", 1)[-1] == vn:
+                return e
+            return ("variant", e, vn)
         if "cidx" in pe:
             return ("index", e, ("const", pe["cidx"]))
         return ("proj", e, str(pe))
@@ -344,6 +358,8 @@ class ExprBuilder:
         if k == "agg":
             ops = tuple(self.operand(o, loc, depth) for o in r["ops"])
             if r["ak"] == "adt":
+                if "dval" in r:
+                    VARIANT_DVAL[r["adt"] + "::" + r["variant"]] = r["dval"]
                 return ("agg", ("adt", r["adt"] + "::" + r["variant"], tuple(r["fields"])), ops)
             if r["ak"] == "closure":
                 return ("closure", r.get("closure_did"), ops)
@@ -398,7 +414,7 @@ class ExprBuilder:
 
 
 def subst_params(e, args):
-    if not isinstance(e, tuple):
+    if not isinstance(e, tuple) or not e:
         return e
     if e[0] == "param":
         i = e[1] - 1
@@ -694,6 +710,44 @@ def _deciding_defs(body, l, loc, field=None, depth=0):
             if sub is None:
                 return None
             out.extend(sub)
+        elif rv["k"] == "use" and rv["op"]["k"] in ("move", "copy") and field is None and len(rv["op"]["pl"]["p"]) == 2 \
+                and isinstance(rv["op"]["pl"]["p"][0], dict) and "variant" in rv["op"]["pl"]["p"][0] \
+                and isinstance(rv["op"]["pl"]["p"][1], dict) and "f" in rv["op"]["pl"]["p"][1]:
+            # `let how = (opt as Some).0`: the payload of a locally built Some(..)
+            sub = _nested_deciding_defs(body, rv["op"]["pl"]["l"], (d[0], d[1]), rv["op"]["pl"]["p"][0].get("vname"), rv["op"]["pl"]["p"][1]["f"], depth + 1)
+            if sub is None:
+                return None
+            out.extend(sub)
+        else:
+            return None
+    return out
+
+
+def _nested_deciding_defs(body, l, loc, vname, field, depth=0):
+    """like _deciding_defs for the enum stored in field `field` of the variant `vname` of local `l`: the constructions of
+    that payload over all reaching definitions of `l` that build `vname` (definitions building another variant cannot
+    reach the arm and are skipped)"""
+    if depth > 6:
+        return None
+    out = []
+    for d in reaching_defs(body, l, loc):
+        if d[0] == "entry" or d[2] != "assign":
+            return None
+        rv = d[3]
+        if rv["k"] == "agg" and rv.get("ak") == "adt" and "dval" in rv:
+            if rv.get("variant") != vname:
+                continue
+            if field >= len(rv["ops"]) or rv["ops"][field]["k"] not in ("move", "copy") or rv["ops"][field]["pl"]["p"]:
+                return None
+            sub = _deciding_defs(body, rv["ops"][field]["pl"]["l"], (d[0], d[1]), None, depth + 1)
+            if sub is None:
+                return None
+            out.extend(sub)
+        elif rv["k"] == "use" and rv["op"]["k"] in ("move", "copy") and not rv["op"]["pl"]["p"]:
+            sub = _nested_deciding_defs(body, rv["op"]["pl"]["l"], (d[0], d[1]), vname, field, depth + 1)
+            if sub is None:
+                return None
+            out.extend(sub)
         else:
             return None
     return out
@@ -732,6 +786,10 @@ def expand_discr_correlation(body, facts, inline, guards, depth=0):
         rv = ds[0][3]
         if rv["k"] == "discr" and not rv["pl"]["p"]:
             vd = _deciding_defs(body, rv["pl"]["l"], (ds[0][0], ds[0][1]))
+        elif rv["k"] == "discr" and len(rv["pl"]["p"]) == 2 and isinstance(rv["pl"]["p"][0], dict) and "variant" in rv["pl"]["p"][0] \
+                and isinstance(rv["pl"]["p"][1], dict) and "f" in rv["pl"]["p"][1]:
+            # `match classify(x) { Some(Kind::A) => .., Some(Kind::B) => .., None => .. }`: the variant of the payload
+            vd = _nested_deciding_defs(body, rv["pl"]["l"], (ds[0][0], ds[0][1]), rv["pl"]["p"][0].get("vname"), rv["pl"]["p"][1]["f"])
         elif rv["k"] == "use" and rv["op"]["k"] in ("copy", "move") and len(rv["op"]["pl"]["p"]) == 1 \
                 and isinstance(rv["op"]["pl"]["p"][0], dict) and "f" in rv["op"]["pl"]["p"][0]:
             vd = _deciding_defs(body, rv["op"]["pl"]["l"], (ds[0][0], ds[0][1]), field=rv["op"]["pl"]["p"][0]["f"])
@@ -940,6 +998,28 @@ def feasible_paths_to(body, target, limit=4000):
     if 0 in can_reach:
         rec(0, [0], {0: 0})
     return out
+
+
+def refuted_by_variants(rels):
+    """a relation on the discriminant of a value that this very path built as a known variant contradicts that variant:
+    `discr(Some{..}) notin (1)`, `discr(None{}) == 1` - the path cannot be taken"""
+    for r in rels:
+        if not (isinstance(r, tuple) and len(r) >= 3 and isinstance(r[1], tuple) and r[1] and r[1][0] == "discr"):
+            continue
+        x = r[1][1]
+        while isinstance(x, tuple) and x and x[0] in ("ref", "deref"):
+            x = x[1]
+        if not (isinstance(x, tuple) and x and x[0] == "agg" and isinstance(x[1], tuple) and x[1] and x[1][0] == "adt"):
+            continue
+        d = VARIANT_DVAL.get(x[1][1])
+        if d is None:
+            continue
+        v = r[2]
+        c = v[1] if (isinstance(v, tuple) and v and v[0] == "const") else v
+        if (r[0] == "truth" and c != d) or (r[0] == "notin" and d in v) or (r[0] == "eq" and isinstance(c, int) and c != d) \
+                or (r[0] == "ne" and isinstance(c, int) and c == d):
+            return True
+    return False
 
 
 def path_relations(body, facts, path):
